@@ -954,8 +954,8 @@ wavlike_write_cart_chunk (SF_PRIVATE *psf)
 int
 wavlike_subchunk_parse (SF_PRIVATE *psf, int chunk, uint32_t chunk_length)
 {	sf_count_t	current_pos ;
-	char		buffer [2048] ;
-	uint32_t 	chunk_size, bytesread = 0 ;
+	char		*buffer ;
+	uint32_t 	chunk_size, bytesread = 0, bufsize ;
 
 	current_pos = psf_fseek (psf, 0, SEEK_CUR) ;
 
@@ -973,6 +973,16 @@ wavlike_subchunk_parse (SF_PRIVATE *psf, int chunk, uint32_t chunk_length)
 		}
 	else
 		psf_log_printf (psf, "%M : %u\n", chunk, chunk_length) ;
+
+	/*
+	**	The text buffer is sized by the chunk so that every string the writer
+	**	emits can be read back. The strings are read through the header cache,
+	**	which holds at most 100k (psf_bump_header_allocation) : a bigger buffer
+	**	would never be filled.
+	*/
+	bufsize = SF_MAX (SF_MIN (chunk_length, 100 * 1024u), 2047u) + 1 ;
+	if ((buffer = calloc (1, bufsize)) == NULL)
+		return SFE_MALLOC_FAILED ;
 
 	while (bytesread < chunk_length)
 	{	uint32_t thisread ;
@@ -998,6 +1008,7 @@ wavlike_subchunk_parse (SF_PRIVATE *psf, int chunk, uint32_t chunk_length)
 					psf_log_printf (psf, "  %M inside a LIST block??? Backing out.\n", chunk) ;
 					/* Jump back four bytes and return to caller. */
 					psf_binheader_readf (psf, "j", -4) ;
+					free (buffer) ;
 					return 0 ;
 
 			case 0 :
@@ -1035,14 +1046,20 @@ wavlike_subchunk_parse (SF_PRIVATE *psf, int chunk, uint32_t chunk_length)
 						goto cleanup_subchunk_parse ;
 						} ;
 
-					if (chunk_size >= SIGNED_SIZEOF (buffer))
+					if (chunk_size >= bufsize)
 					{	/* Too long for the buffer, but the items after it are fine. */
 						psf_log_printf (psf, "    %M : %u (too long, skipping)\n", chunk, chunk_size) ;
 						bytesread += psf_binheader_readf (psf, "j", chunk_size) ;
 						continue ;
 						} ;
 
-					bytesread += psf_binheader_readf (psf, "b", buffer, chunk_size) ;
+					if ((thisread = psf_binheader_readf (psf, "b", buffer, chunk_size)) != chunk_size)
+					{	/* The header cache cannot take it. */
+						psf_log_printf (psf, "    %M : %u (cannot be read, skipping)\n", chunk, chunk_size) ;
+						bytesread += psf_binheader_readf (psf, "j", chunk_size) ;
+						continue ;
+						} ;
+					bytesread += thisread ;
 					buffer [chunk_size] = 0 ;
 					psf_log_printf (psf, "    %M : %s\n", chunk, buffer) ;
 					break ;
@@ -1053,7 +1070,7 @@ wavlike_subchunk_parse (SF_PRIVATE *psf, int chunk, uint32_t chunk_length)
 						bytesread += psf_binheader_readf (psf, "44", &chunk_size, &mark_id) ;
 						chunk_size -= 4 ;
 						chunk_size += (chunk_size & 1) ;
-						if (chunk_size < 1 || chunk_size >= SIGNED_SIZEOF (buffer) || bytesread + chunk_size > chunk_length)
+						if (chunk_size < 1 || chunk_size >= bufsize || bytesread + chunk_size > chunk_length)
 						{	psf_log_printf (psf, "  *** %M : %u (too big)\n", chunk, chunk_size) ;
 							goto cleanup_subchunk_parse ;
 							} ;
@@ -1084,7 +1101,7 @@ wavlike_subchunk_parse (SF_PRIVATE *psf, int chunk, uint32_t chunk_length)
 			case note_MARKER :
 					bytesread += psf_binheader_readf (psf, "4", &chunk_size) ;
 					chunk_size += (chunk_size & 1) ;
-					if (chunk_size >= SIGNED_SIZEOF (buffer) || bytesread + chunk_size > chunk_length)
+					if (chunk_size >= bufsize || bytesread + chunk_size > chunk_length)
 					{	psf_log_printf (psf, "  *** %M : %u (too big)\n", chunk, chunk_size) ;
 						goto cleanup_subchunk_parse ;
 						} ;
@@ -1141,6 +1158,8 @@ cleanup_subchunk_parse :
 
 	if (chunk_length > bytesread)
 		bytesread += psf_binheader_readf (psf, "j", chunk_length - bytesread) ;
+
+	free (buffer) ;
 
 	return 0 ;
 } /* wavlike_subchunk_parse */
